@@ -79,6 +79,9 @@ def templates(tier):
         T.append(("def tfun(j: Qint[2], p: Parameter[Qmatrix[Qint[2], %s]]) -> Qint[2]:\n    return p[1][j]\n" % sh, {"p": dom}))
     T.append(("def tfun(i: bool, j: Qint[2], p: Parameter[Qmatrix[bool, 2, 3]]) -> bool:\n    x = 1 if i else 0\n    return p[x][j]\n", {"p": MB23}))
     T.append(("def tfun(a: bool, p: Parameter[Qmatrix[bool, 2, 3]]) -> bool:\n    return (len(p) == 2) and (len(p[0]) == 3) and (a or p[1][2])\n", {"p": MB23}))
+    for cmp in ("==", "!=", "<", "<=", ">", ">="):
+        T.append(("def tfun(a: Qint[2], p: Parameter[Qlist[Qint[2], 2]]) -> Qint[4]:\n    c = a\n    for w in p:\n        if w %s 2:\n            c += 1\n    return c\n" % cmp, {"p": L2}))
+        T.append(("def tfun(a: Qint[2], p: Parameter[Qint[2]]) -> Qint[2]:\n    return a + 1 if p %s 1 else a\n" % cmp, {"p": QI2}))
     # chars and fixed
     T.append(("def tfun(a: Qchar, p: Parameter[Qchar]) -> bool:\n    return a == p\n", {"p": ["a", "z", "0"]}))
     T.append(("def tfun(a: Qint[2], p: Parameter[Qchar]) -> Qchar:\n    return p if a == 1 else 'x'\n", {"p": ["a", "b"]}))
